@@ -476,9 +476,9 @@ CHECKS["C10"] = {
         harness("c10_load_configuration_text_payload_is_escaped", functions=["junos::load_configuration::LoadConfiguration::write_xml", "Config::write_element", "ConfigData<Text|Json>::write_data"],
                 bounds="payload of 2 bytes over {<,&,\",],a}; text and json formats", loops={r"Inline.*from_slice|write_escaped": 45}, mem_gb=30),
         harness("c10_url_plain", functions=["Url::try_new", "delete_config::Builder::url", "DeleteConfig::write_xml", "Url::write_xml"],
-                bounds="concrete URL http://h/c", tiers=["experimental"]),
+                bounds="concrete URL http://h/c", stubbing=True, tiers=["experimental"]),
         harness("c10_url_with_metacharacters", functions=["Url::try_new", "delete_config::Builder::url", "DeleteConfig::write_xml", "Url::write_xml"],
-                bounds="concrete URL http://h/?a&b='c' (the XML metacharacters a URI may contain)", tiers=["experimental"]),
+                bounds="concrete URL http://h/?a&b='c' (the XML metacharacters a URI may contain)", stubbing=True, tiers=["experimental"]),
         harness("c10_commit_tokens", functions=["Commit::write_xml", "CancelCommit::write_xml", "commit::Builder::persist/persist_id", "Token"],
                 bounds="token of 2 bytes over {<,&,\",],a}; persist, persist-id, cancel-commit persist-id", loops={r"Inline.*from_slice|write_escaped": 45}, tiers=["experimental"], mem_gb=30),
         harness("c10_junos_texts_and_xpath", functions=["OpenConfiguration::write_xml", "CommitConfiguration::write_xml", "GetConfig::write_xml", "Filter::write_xml"],
